@@ -52,6 +52,9 @@ Cases == {[kind |-> "key", ser |-> s, shape |-> sh, pwd |-> "none"] : s \in {"pr
          \* the ends of the private-key range: d = 1 and d = n - 2 (the largest key GenerateKey can return)
          {[kind |-> "key", ser |-> s, shape |-> sh, pwd |-> "none"] : s \in {"privhex", "pkcs8"}, sh \in {"d_one", "d_max"}} \cup
          {[kind |-> "key", ser |-> "pkcs8", shape |-> sh, pwd |-> "ascii"] : sh \in {"d_one", "d_max"}} \cup
+         \* the byte that ends the key's DER (the low byte of the public y) takes every value a pad byte of the password-based
+         \* encryption can have (1..16), for private keys of 32, 31 and 30 bytes (the DER length decides the pad length)
+         {[kind |-> "key", ser |-> "pkcs8", shape |-> "ylow" \o ToString(k) \o "_" \o ToString(l), pwd |-> "ascii"] : k \in 1..16, l \in {30, 31, 32}} \cup
          \* (top80: the most significant byte is exactly 80, the smallest value that needs the sign octet)
          {[kind |-> "sig", ser |-> "asn1sig", shape |-> sh, pwd |-> "none"] : sh \in Shapes \cup {"top80"}} \cup
          {[kind |-> "cipher", ser |-> "asn1cipher", shape |-> sh, pwd |-> "none"] : sh \in {"plain", "lead0_1"}} \cup
